@@ -307,6 +307,10 @@ def checkBuild (d : Design) (names exported incons : List String) (locs : List (
         -- only where the source draws something: `loc` is a master location of `n` or of a glyph nested in it
         -- (elsewhere the outline is pure interpolation, which legitimately depends on how the glyph is stored)
         if !(d.masters.any fun m => m.nloc == loc && involved.any fun g => (m.glyph? g).isSome) then continue
+        -- a glyph whose component 2×2 varies over the designspace has no agreed drawing where it has no master
+        -- (interpolating its transform and interpolating its outline differ; fontc always does the latter,
+        -- whatever the flags): only its own masters are checked
+        if involved.any fun g => incons.contains g && !(d.masters.any fun m => m.nloc == loc && (m.glyph? g).isSome) then continue
         let G := Env.ofList envL
         let src := resolve G (names.length + 1) n
         let (fcs, dep, _) := fontResolve d f loc (f.names.length + 1) gid
